@@ -174,6 +174,11 @@ func genC05Dest(x *Exec, g *simrt.Choices, k int, pickle bool, nc simnet.Config)
 			n = 5
 		}
 		l := mkLine(fmt.Sprintf("c05d%d", k), i, n, g)
+		if g.Bool(0.04) {
+			// a timestamp that validation accepts but a pickle cannot carry: verbatim in plain mode, skipped and counted
+			// (bad_pickle) in pickle mode, and in neither case may it disturb its neighbours
+			l = append(l, ".5"...)
+		}
 		p.total += len(l)
 		p.lines = append(p.lines, l)
 		pz := 0
@@ -333,7 +338,7 @@ func checkC05Dest(s *simrt.Sim, prop string, pd *c05Dest, ep *Endpoint, recvTota
 				nrecv += len(ls)
 			}
 		}
-		if int64(nrecv)+counter("dest="+key+".unit=Metric.action=drop.reason=slow_conn") >= int64(len(lines)) {
+		if int64(nrecv)+counter("dest="+key+".unit=Metric.action=drop.reason=slow_conn")+counter("dest="+key+".unit=Metric.action=drop.reason=bad_pickle") >= int64(len(lines)) {
 			break
 		}
 		simrt.Sleep(250 * time.Millisecond)
@@ -410,7 +415,8 @@ func checkC05Dest(s *simrt.Sim, prop string, pd *c05Dest, ep *Endpoint, recvTota
 		s.Fail(prop+":uncounted-loss", "%s: %d of %d handed-off lines never arrived but slow_conn counts %d", d.Addr, missing, len(lines), dropped)
 		return false
 	}
-	if out != int64(received) {
+	if out != int64(received)+badPickle {
+		// (the relay counts a line it could not pickle both as bad_pickle and as out; C05 makes no claim about that)
 		s.Fail(prop+":out-counter", "%s: direction=out counts %d but %d records were received", d.Addr, out, received)
 		return false
 	}
